@@ -40,6 +40,7 @@ def generate(seed, batch):
     scen = {'prop': PROP, 'seed': seed, 'batch': batch}
     scen['v0'] = {'cls': rng.choice(['gauss', 'gauss', 'const', 'alt', 'ramp', 'spike']), 'seed': rng.getrandbits(40)}
     scen['faults'] = []
+    scen['second_v0'] = rng.random() < 0.25
     scen['sort'] = rng.random() < 0.85
     scen['mass_scale'] = rng.choice([None, None, 10 ** rng.uniform(-2, 2), 10 ** rng.uniform(-14, 4)])
     scen['cross_path'] = rng.random() < 0.4
@@ -96,7 +97,7 @@ def shrink_candidates(scen):
         c = copy.deepcopy(scen)
         c['faults'] = []
         yield c
-    for key, val in (('mass_scale', None), ('cross_path', False), ('reduced_dof', False)):
+    for key, val in (('mass_scale', None), ('cross_path', False), ('reduced_dof', False), ('second_v0', False)):
         if scen.get(key) not in (val,):
             c = copy.deepcopy(scen)
             c[key] = val
@@ -374,6 +375,16 @@ def execute(scen):
                 else:
                     check_result(scen, Kd, Md, active, vals2, vecs2, k, not sparse, sort, ref, log, res, tag='(other-path)')
                     bump(res['probes'], 'F5_paths_checked')
+            if scen.get('second_v0'):
+                seam.scen = dict(scen, v0={'cls': 'gauss', 'seed': scen['v0']['seed'] ^ 0x5DEECE66D})
+                try:
+                    vals4, vecs4 = call_impl(scen, K, M, k, sparse, sort, reduced, obj=obj)
+                except Exception as e:
+                    bump(res['exceptions'], 'second_v0_' + type(e).__name__)
+                else:
+                    check_result(scen, Kd, Md, active, vals4, vecs4, k, sparse, sort, ref, log, res, tag='(other-start-vector)')
+                    bump(res['probes'], 'second_start_vector_checked')
+                seam.scen = scen
             s = scen.get('mass_scale')
             if s and sort and scen['src'] == 'random' and w_ref.min() / np.sqrt(s) > 1e-4:
                 try:
